@@ -28,6 +28,9 @@ pub enum Origin {
     /// lazer + Classic mod whose `no_slider_head_accuracy` setting is switched off again:
     /// scored like plain lazer (with slider accuracy)
     LazerClassicHeadAcc,
+    /// a stable score (`lazer(false)`) that nevertheless carries the lazer Classic mod with slider-head
+    /// accuracy switched on: scored like stable
+    StableClassicHeadAcc,
 }
 
 impl Origin {
@@ -39,6 +42,7 @@ impl Origin {
                 .lazer(true)
                 .mods(ModsSpec { bits: 0, repr: ModRepr::Lazer, extras: vec![LazerExtra::Classic] }.build(mode)),
             Origin::LazerClassicHeadAcc => Difficulty::new().lazer(true).mods(Self::classic_with_head_acc(mode)),
+            Origin::StableClassicHeadAcc => Difficulty::new().lazer(false).mods(Self::classic_with_head_acc(mode)),
         }
     }
 
@@ -60,7 +64,7 @@ impl Origin {
 
     /// For mania: whether the classic (stable) judgement model applies.
     pub fn mania_classic(self) -> bool {
-        matches!(self, Origin::Stable | Origin::LazerClassic | Origin::LazerClassicHeadAcc)
+        matches!(self, Origin::Stable | Origin::LazerClassic | Origin::LazerClassicHeadAcc | Origin::StableClassicHeadAcc)
     }
 
     /// The same origin expressed through the Performance setters instead of a Difficulty.
@@ -70,6 +74,7 @@ impl Origin {
             Origin::Lazer => p.lazer(true),
             Origin::LazerClassic => p.lazer(true).mods(ModsSpec { bits: 0, repr: ModRepr::Lazer, extras: vec![LazerExtra::Classic] }.build(mode)),
             Origin::LazerClassicHeadAcc => p.lazer(true).mods(Self::classic_with_head_acc(mode)),
+            Origin::StableClassicHeadAcc => p.lazer(false).mods(Self::classic_with_head_acc(mode)),
         }
     }
 }
@@ -288,7 +293,7 @@ fn gen_provided(t: &mut Tape, shape: &Shape) -> Provided {
     let relevant_katu = matches!(shape, Shape::Catch { .. } | Shape::Mania { .. });
     let relevant_geki = matches!(shape, Shape::Mania { .. });
     let tiny = if let Shape::Catch { tiny, .. } = shape { *tiny } else { n };
-    Provided {
+    let mut provided = Provided {
         accuracy: if t.chance(1, 2) {
             Some(match t.weighted(&[8, 3, 1]) {
                 0 => t.float(0.0, 100.0),
@@ -312,7 +317,20 @@ fn gen_provided(t: &mut Tape, shape: &Shape) -> Provided {
         passed: if t.chance(1, 3) { Some(t.range(0, i64::from(n) + 2) as u32) } else { None },
         via_setters: t.coin(),
         via_inspect: if t.chance(1, 3) { 1 + t.below(2) as u8 } else { 0 },
+    };
+    // a third of the specifications is made to *fit jointly*: the provided hit results and misses are scaled
+    // down to a random composition of at most N (independent draws almost always over-specify)
+    if t.chance(1, 3) {
+        let mut budget = t.range(0, i64::from(n)) as u32;
+        let fields: [&mut Option<u32>; 6] = [&mut provided.misses, &mut provided.n_geki, &mut provided.n300, &mut provided.n_katu, &mut provided.n100, &mut provided.n50];
+        for f in fields {
+            if let Some(v) = f {
+                *v = if t.chance(1, 4) { 0 } else { t.range(0, i64::from(budget)) as u32 };
+                budget -= *v;
+            }
+        }
     }
+    provided
 }
 
 /// Mode-independent view of what the mode expects: (n_obj, N, per-category provided/out pairs).
@@ -412,7 +430,7 @@ pub fn oracle(shape: &Shape, origin: Origin, p: &Provided, info: &mut CaseInfo) 
     // score origin does not have are zero
     if let Shape::Osu { sliders, large_ticks, .. } = *shape {
         let expect = |prov: Option<u32>, max: u32| prov.map_or(max, |v| v.min(max));
-        let (exp_ends, exp_large, exp_small) = if origin == Origin::Stable {
+        let (exp_ends, exp_large, exp_small) = if matches!(origin, Origin::Stable | Origin::StableClassicHeadAcc) {
             (0, 0, 0)
         } else if origin.osu_with_slider_acc() {
             (expect(p.slider_end_hits, sliders), expect(p.large_tick_hits, large_ticks), 0)
@@ -522,6 +540,7 @@ pub fn origin_from_name(s: &str) -> Origin {
         "Stable" => Origin::Stable,
         "LazerClassic" => Origin::LazerClassic,
         "LazerClassicHeadAcc" => Origin::LazerClassicHeadAcc,
+        "StableClassicHeadAcc" => Origin::StableClassicHeadAcc,
         _ => Origin::Lazer,
     }
 }
@@ -535,7 +554,7 @@ fn direct(v: &Value) -> Result<(), String> {
 
 fn case(t: &mut Tape, info: &mut CaseInfo) -> Result<(), String> {
     let shape = gen_shape(t);
-    let origin = *t.pick(&[Origin::Lazer, Origin::Stable, Origin::LazerClassic, Origin::LazerClassicHeadAcc]);
+    let origin = *t.pick(&[Origin::Lazer, Origin::Stable, Origin::LazerClassic, Origin::LazerClassicHeadAcc, Origin::StableClassicHeadAcc]);
     let mut p = gen_provided(t, &shape);
     // open findings: steer out of the class by construction
     if crate::known::is_open(K_CATCH_COMBO) && matches!(shape, Shape::Catch { .. }) && p.combo.is_some() {
